@@ -281,6 +281,8 @@ class EvoWorklist(BaseWorklist):
         assert (
             len(set(lengths)) == 1
         ), f"Number of source/destination/volumes must be equal. They were {lengths}"
+        if not np.all(volumes >= 0):
+            raise ValueError("Volumes must be positive or zero.")
 
         # automatic partitioning
         partition_by = optimize_partition_by(source, destination, partition_by, label)
